@@ -21,6 +21,7 @@
 #endif
 
 void harness(void) {
+    GHOST_INDICES_ARBITRARY();
     deps_install();
     size_t n = nondet_size();
     __CPROVER_assume(n >= 1 && n <= STR_OBJ_MAX);
